@@ -258,10 +258,13 @@ def run(prog: Program, chk: Check):
         if not isinstance(n, (ast.Assign, ast.AnnAssign)) or n.value is None:
             continue
         comp = n.value
+        wrapped = False
         # list / set comprehension, or set(...) / frozenset(...) / list(...) / tuple(...) over a generator or comprehension
+        # (a bare generator expression is NOT a snapshot: the first `in` test consumes it)
         if isinstance(comp, ast.Call) and isinstance(comp.func, ast.Name) and comp.func.id in ("set", "frozenset", "list", "tuple", "sorted") and len(comp.args) == 1 and not comp.keywords:
             comp = comp.args[0]
-        if isinstance(comp, (ast.ListComp, ast.SetComp, ast.GeneratorExp)) and len(comp.generators) == 1 \
+            wrapped = True
+        if isinstance(comp, (ast.ListComp, ast.SetComp) + ((ast.GeneratorExp,) if wrapped else ())) and len(comp.generators) == 1 \
                 and norm(comp.generators[0].iter) == "self.modules.values()" and not comp.generators[0].ifs \
                 and isinstance(comp.elt, ast.Attribute) and comp.elt.attr == "mod_id" and path_of(comp.elt.value) == path_of(comp.generators[0].target):
             cur = path_of(n.targets[0] if isinstance(n, ast.Assign) else n.target)
